@@ -400,6 +400,10 @@ func scenProduce(s *Sim) {
 	st := &prodState{s: s, byPtr: map[*kgo.Record]*prec{}, byVal: map[string]*prec{}, closing: map[string]uint64{}, closed: map[string]bool{}, cur: map[string]string{},
 		maxRecs: p.Knob("max_buf_recs", 10000), maxBytes: p.Knob("max_buf_bytes", 0), nactors: int64(len(p.Actors))}
 	admin := s.Raw("admin")
+	if p.Knob("mixed_versions", 0) != 0 {
+		// brokers of one cluster negotiate different produce versions
+		capProduceVersions(s, []int16{0, int16(p.Knob("old_produce_ver", 6)), 0, int16(p.Knob("old_produce_ver2", 3))})
+	}
 
 	wm := newProduceWire(s, st)
 	s.OnReq = append(s.OnReq, wm.onReq)
